@@ -50,30 +50,40 @@ Theorem C02_agrees_with_reference : forall opq s other b r,
 Proof. exact agrees_with_reference. Qed.
 
 (* ---- Adj-RIB-In (UpdateHandler + Cache.update_cache / update_cache_withdraw; key = Route.index, C15) as a finite
-   map: after a decoded UPDATE the table is (rib - withdrawn) (+) announced, key by key; the last announce of a key
-   wins, and a key that the same UPDATE both announces and withdraws ends withdrawn (announces are stored first) *)
+   map.  ref_rib_after (Spec_Wire) is the RFC 4271 4.3 update: withdrawn routes removed, announced ones installed, the
+   last announce of a route wins, and a route that the same UPDATE both withdraws and announces STAYS ANNOUNCED.
+   The handler with its withdraw loop before its announce loop computes exactly that ... *)
 Theorem C02_ribin : forall r u k,
-  rib_get (ribin_apply true r u) k =
-  if withdraws_key k (u_wd u) then None else
-  match last_announce k (u_ann u) with
-  | Some a => Some (fst a, snd a, u_attrs u)
-  | None => rib_get r k
-  end.
-Proof. exact ribin_apply_map. Qed.
+  rib_get (ribin_apply_gen true true r u) k =
+  ref_rib_after rib_key list_eqb (rib_get r) (u_ann u) (u_wd u) (u_attrs u) k.
+Proof. exact ribin_rfc. Qed.
 
-(* composed with C02_agrees_with_reference: after a well-formed UPDATE the table holds exactly the reference's
-   routes, next hops and attribute list *)
+(* ... and that is the tree under check when T5 reads this loop order in UpdateHandler.handle / handle_async
+   (Gen_AttrTable.RIBIN_WITHDRAW_FIRST, regenerated on every run; the harness has the obligation that it is true) *)
+Theorem C02_ribin_tree : RIBIN_WITHDRAW_FIRST = true -> forall r u k,
+  rib_get (ribin_apply true r u) k =
+  ref_rib_after rib_key list_eqb (rib_get r) (u_ann u) (u_wd u) (u_attrs u) k.
+Proof. exact ribin_tree. Qed.
+
+(* the other order (announces stored first, then withdraws removed): 10.1.2.0/24 withdrawn and announced by one UPDATE
+   is absent from the table, where the reference (and the withdraw-first handler) keep it *)
+Theorem C02_ribin_refuted :
+  rib_get (ribin_apply_gen false true [] w_both_update) (rib_key w_both_route) = None
+  /\ ref_rib_after rib_key list_eqb (rib_get []) (u_ann w_both_update) (u_wd w_both_update) (u_attrs w_both_update)
+       (rib_key w_both_route) = Some (w_both_route, [10;0;0;1], [])
+  /\ rib_get (ribin_apply_gen true true [] w_both_update) (rib_key w_both_route) = Some (w_both_route, [10;0;0;1], []).
+Proof. exact ribin_announce_first_refuted. Qed.
+
+(* composed with C02_agrees_with_reference: after a well-formed UPDATE the table is the RFC one for exactly the
+   reference's routes, next hops and attribute list *)
 Theorem C02_ribin_reference : forall opq s other b u,
+  RIBIN_WITHDRAW_FIRST = true ->
   ip_sess s -> wfb b ->
   (forall wb ab nb l, sections b = Some (wb, ab, nb) -> tlvs (length ab) ab = Some l -> forallb modelled l = true) ->
   ref_update_gen unpack_nlri other (rs_of s) b = Some (RUpdate u) ->
   exists u', dec_update opq s b = Decoded u' /\ map entry_of (u_attrs u') = ru_attrs u
     /\ forall r k, rib_get (ribin_apply true r u') k =
-         if withdraws_key k (ru_withdrawn u) then None else
-         match last_announce k (ru_announced u) with
-         | Some a => Some (fst a, snd a, u_attrs u')
-         | None => rib_get r k
-         end.
+         ref_rib_after rib_key list_eqb (rib_get r) (ru_announced u) (ru_withdrawn u) (u_attrs u') k.
 Proof. exact ribin_reference. Qed.
 
 (* ---- End-of-RIB: the RFC 4724 markers are recognised for their family ... *)
@@ -123,6 +133,8 @@ Proof. exact eor_third_path. Qed.
 Print Assumptions C02_agrees_with_reference_attributes.
 Print Assumptions C02_agrees_with_reference.
 Print Assumptions C02_ribin.
+Print Assumptions C02_ribin_tree.
+Print Assumptions C02_ribin_refuted.
 Print Assumptions C02_ribin_reference.
 Print Assumptions C02_eor_v4.
 Print Assumptions C02_eor_mp.
